@@ -356,7 +356,7 @@ Section Generic.
     mapM_idx (lpart calls) 0 sts = Ok locals ->
     length locals = N.to_nat world /\
     forall k x, nth_error locals k = Some x ->
-      exists st, nth_error sts k = Some st /\ rs_idx st = rs_idx st /\
+      exists st, nth_error sts k = Some st /\ True /\
         snd (fst (fst x)) = (g + usage * calls)%N /\
         local_iter a (subc calls (N.of_nat k)) (g + usage * before calls (N.of_nat k))%N (rs_idx st)
           = Ok (lr_of x, (g + usage * (before calls (N.of_nat k) + subc calls (N.of_nat k)))%N, idx_of x, evs_of x).
@@ -1415,3 +1415,268 @@ Lemma c04_example : ex04_check = true /\ world_ok 3 /\ perm_ok 3 [2; 0; 1]%N /\
   cb_rank_independent (fun (_ : N) (_ : pchk B64) => true) /\ Forall (fun calls => (calls < 2 ^ 64)%N) [4; 1]%N /\
   Permutation [2; 0; 1]%N (iotaN 0 3).
 Proof. split; [exact ex04_check_ok|exact ex04_hyps]. Qed.
+
+(** ** C04_counters / C04_sums: the reduction over a commutative monoid does not depend on the order *)
+Lemma iotaN_In_bound : forall n s p, In p (iotaN s n) -> (s <= p < s + N.of_nat n)%N.
+Proof.
+  induction n as [|n IH]; intros s p H; [destruct H|]. cbn [iotaN] in H. destruct H as [<-|H]; [lia|].
+  apply IH in H. lia.
+Qed.
+
+Section Monoid.
+  Variable A : Type.
+  Variable op : A -> A -> A.
+  Variable e : A.
+  Hypothesis assoc : forall a b c, op a (op b c) = op (op a b) c.
+  Hypothesis comm : forall a b, op a b = op b a.
+  Hypothesis idr : forall a, op a e = a.
+
+  Definition msum (l : list A) : A := fold_right op e l.
+
+  Lemma fold_left_msum : forall l a, fold_left op l a = op a (msum l).
+  Proof.
+    induction l as [|x l IH]; intros a; cbn [fold_left msum fold_right]; [rewrite idr; reflexivity|].
+    rewrite IH. fold (msum l). rewrite assoc. reflexivity.
+  Qed.
+
+  Lemma msum_app l l' : msum (l ++ l') = op (msum l) (msum l').
+  Proof.
+    induction l as [|x l IH]; cbn [app msum fold_right]; [rewrite comm, idr; reflexivity|].
+    fold (msum (l ++ l')). fold (msum l). rewrite IH, assoc. reflexivity.
+  Qed.
+
+  Lemma msum_perm l l' : Permutation l l' -> msum l = msum l'.
+  Proof.
+    unfold msum. induction 1 as [|x l l' _ IH|x y l|l l' l'' _ IH1 _ IH2]; cbn [fold_right] in *; [reflexivity|congruence| |congruence].
+    rewrite !assoc, (comm y x). reflexivity.
+  Qed.
+
+  (* with ANY permutation of the ranks as summation order, entry k of the reduced buffer is the sum of the
+     ranks' entries k (taken in rank order) *)
+  Lemma allreduce_msum (d : A) perm contribs n :
+    Permutation perm (iotaN 0 (length contribs)) -> contribs <> [] -> Forall (fun c => length c = n) contribs ->
+    exists v, allreduce op perm contribs = Ok v /\ length v = n /\
+      forall k, (k < n)%nat -> nth k v d = msum (map (fun c => nth k c d) contribs).
+  Proof.
+    intros Hperm Hne Hc.
+    destruct perm as [|p0 rest].
+    { apply Permutation_nil in Hperm. destruct contribs; [congruence|discriminate]. }
+    destruct (allreduce_spec op d p0 rest contribs n) as (v & E1 & E2 & E3); [|exact Hc|].
+    { apply Forall_forall. intros p Hp. apply (Permutation_in _ Hperm) in Hp. apply iotaN_In_bound in Hp. lia. }
+    exists v. split; [exact E1|]. split; [exact E2|]. intros k Hk. rewrite (E3 k Hk), fold_left_msum.
+    change (op (nth k (nth (N.to_nat p0) contribs []) d) (msum (map (fun p => nth k (nth (N.to_nat p) contribs []) d) rest)))
+      with (msum (map (fun p => nth k (nth (N.to_nat p) contribs []) d) (p0 :: rest))).
+    rewrite (msum_perm _ _ (Permutation_map _ Hperm)). f_equal. symmetry.
+    apply (map_by_index (fun c => nth k c d) (fun p => nth k (nth (N.to_nat p) contribs []) d) contribs 0%N).
+    intros j x Hj. rewrite N.add_0_l, Nat2N.id. rewrite (nth_error_nth _ _ _ Hj). reflexivity.
+  Qed.
+End Monoid.
+
+Definition Nsum (l : list N) : N := msum N N.add 0%N l.
+Definition Rsum (l : list R) : R := msum R Rplus 0%R l.
+
+Lemma allreduce_N_sum perm (contribs : list (list N)) n :
+  Permutation perm (iotaN 0 (length contribs)) -> contribs <> [] -> Forall (fun c => length c = n) contribs ->
+  exists v, allreduce N.add perm contribs = Ok v /\ length v = n /\
+    forall k, (k < n)%nat -> nth k v 0%N = Nsum (map (fun c => nth k c 0%N) contribs).
+Proof. apply allreduce_msum; intros; lia. Qed.
+
+Lemma allreduce_R_sum perm (contribs : list (list R)) n :
+  Permutation perm (iotaN 0 (length contribs)) -> contribs <> [] -> Forall (fun c => length c = n) contribs ->
+  exists v, allreduce (add NumR) perm contribs = Ok v /\ length v = n /\
+    forall k, (k < n)%nat -> nth k v 0%R = Rsum (map (fun c => nth k c 0%R) contribs).
+Proof. apply allreduce_msum; intros; cbn [add NumR]; lra. Qed.
+
+Lemma perm_ok_of_permutation world perm : world_ok world -> Permutation perm (iotaN 0 (N.to_nat world)) -> perm_ok world perm.
+Proof.
+  intros [Hw _] Hp. split.
+  - intros ->. apply Permutation_nil in Hp. destruct (N.to_nat world) eqn:E; [lia|discriminate].
+  - apply Forall_forall. intros p Hin. apply (Permutation_in _ Hp) in Hin. apply iotaN_In_bound in Hin. lia.
+Qed.
+
+(** ** C04_sums_R: PLAIN over the reals - the reduced main result is the serial one *)
+Lemma nth_skipn_add {A} (d : A) : forall n (l : list A) k, nth k (skipn n l) d = nth (n + k) l d.
+Proof.
+  induction n as [|n IH]; intros l k; [reflexivity|]. destruct l as [|x l]; [destruct k; reflexivity|]. cbn [skipn Nat.add nth]. apply IH.
+Qed.
+
+Lemma unpack_main {K : Num} (t : plainres K) el total tb nb pl ex : unpack t el total tb nb = Ok (pl, ex) ->
+  p_main pl = mk_mcres total (nth 0 nb 0%N) (nth 1 nb 0%N) (nth el tb (zero K)) (nth (el + 1) tb (zero K)).
+Proof.
+  unfold unpack. intros H. pose proof (nth_skipn_add (zero K) el tb 0) as E0. pose proof (nth_skipn_add (zero K) el tb 1) as E1.
+  destruct (skipn el tb) as [|s [|ss tb']]; try discriminate. destruct nb as [|nz [|fin nb']]; try discriminate.
+  apply bind_Ok in H as (ds & _ & H). injection H as <- _. cbn [p_main nth] in *. rewrite Nat.add_0_r in E0. rewrite <- E0, <- E1. reflexivity.
+Qed.
+
+Lemma Rsum_app l l' : Rsum (l ++ l') = (Rsum l + Rsum l')%R.
+Proof. unfold Rsum, msum. induction l as [|x l IH]; cbn [app fold_right]; [lra|]. rewrite IH. lra. Qed.
+Lemma Rsum_one x : Rsum [x] = x.
+Proof. unfold Rsum, msum. cbn [fold_right]. lra. Qed.
+Lemma Rsum_concat_map {X} (h : X -> R) (ls : list (list X)) : Rsum (map h (concat ls)) = Rsum (map (fun l => Rsum (map h l)) ls).
+Proof.
+  induction ls as [|l ls IH]; [reflexivity|]. cbn [concat map]. rewrite map_app, Rsum_app, IH. reflexivity.
+Qed.
+Lemma Nsum_concat_count {X} (b : X -> bool) (ls : list (list X)) :
+  N.of_nat (length (filter b (concat ls))) = Nsum (map (fun l => N.of_nat (length (filter b l))) ls).
+Proof.
+  induction ls as [|l ls IH]; [reflexivity|]. cbn [concat map]. rewrite filter_app, app_length, Nat2N.inj_add, IH. reflexivity.
+Qed.
+
+Section PlainR.
+  Variable strm : N -> NumR.
+  Variable ps : list (dparams NumR).
+  Variable f : integrand NumR.
+  (* each rank owns a copy of the integrand object: the statement needs an integrand whose answer does not
+     depend on how many calls that copy has received *)
+  Definition ignores_counter : Prop := forall o, f o = f (obs_noidx o).
+  Hypothesis Hf : ignores_counter.
+
+  Definition vw (o : obs NumR) : R := (i_val (f o) * o_weight o)%R.
+  Definition nzb (o : obs NumR) : bool := negb (Reqb (i_val (f o)) 0).
+  (* the main result as a function of the calls shown *)
+  Definition main_of (calls : N) (os : list (obs NumR)) : mcres NumR :=
+    mk_mcres (K:=NumR) calls (N.of_nat (length (filter nzb os))) (N.of_nat (length (filter nzb os)))
+             (Rsum (map vw os)) (Rsum (map (fun o => vw o * vw o)%R os)).
+
+  Lemma invoke_main_R (c : cell NumR) (v w : R) : c_comp c = 0%R ->
+    fst (invoke_main c v w) =
+    if negb (Reqb v 0) then mk_cell (K:=NumR) (c_sum c + v * w)%R (c_sumsq c + (v * w) * (v * w))%R 0%R (c_nz c + 1) (c_fin c + 1) else c.
+  Proof.
+    intros Hc. unfold invoke_main, neqb. cbn [eqb NumR zero isfinite mul]. destruct (Reqb v 0); cbn [negb fst]; [reflexivity|].
+    unfold cell_add, accumulate. cbn [sub add mul NumR]. rewrite Hc. f_equal; change (T NumR) with R; ring.
+  Qed.
+
+  Lemma plain_main_R d calls g idx r g' idx' evs :
+    plain_iteration strm ps f d calls g idx = Ok (r, g', idx', evs) -> p_main r = main_of calls (flat_map view_obs evs).
+  Proof.
+    unfold plain_iteration. intros H. apply bind_Ok in H as (s & Hl & H). injection H as <- _ _ <-.
+    cbn [acc_result p_main]. unfold cell_result, main_of.
+    assert (HI : let os := flat_map view_obs (rev (it_tr s)) in
+                 a_main (it_acc s) = mk_cell (K:=NumR) (Rsum (map vw os)) (Rsum (map (fun o => vw o * vw o)%R os)) 0%R
+                                       (N.of_nat (length (filter nzb os))) (N.of_nat (length (filter nzb os)))).
+    { revert Hl. apply (iter_loop_ind _ (fun _ s => let os := flat_map view_obs (rev (it_tr s)) in
+                 a_main (it_acc s) = mk_cell (K:=NumR) (Rsum (map vw os)) (Rsum (map (fun o => vw o * vw o)%R os)) 0%R
+                                       (N.of_nat (length (filter nzb os))) (N.of_nat (length (filter nzb os))))).
+      - reflexivity.
+      - intros k s1 s2 I1 Hst. cbv zeta in *. unfold plain_step in Hst. apply bind_Ok in Hst as ([a v] & Hfc & Hst).
+        set (o := mk_obs (it_idx s1) (draws strm (it_g s1) d) (one NumR) [] 0 []) in *. injection Hst as <-.
+        cbn [it_tr it_acc rev]. rewrite flat_map_app. cbn [flat_map view_obs app].
+        set (os := flat_map view_obs (rev (it_tr s1))) in *.
+        unfold finish_call in Hfc. apply bind_Ok in Hfc as (ds & _ & Hfc).
+        pose proof (invoke_main_R (a_main (it_acc s1)) (i_val (f o)) (o_weight o)) as Hinv.
+        destruct (invoke_main (a_main (it_acc s1)) (i_val (f o)) (o_weight o)) as [m v'].
+        injection Hfc as <- _. cbn [a_main]. cbn [fst] in Hinv. rewrite Hinv by (rewrite I1; reflexivity). clear Hinv.
+        rewrite !map_app, !Rsum_app, filter_app, app_length. cbn [map filter].
+        assert (Evw : vw (obs_noidx o) = (i_val (f o) * o_weight o)%R) by (unfold vw; rewrite <- Hf; reflexivity).
+        assert (Enz : nzb (obs_noidx o) = negb (Reqb (i_val (f o)) 0)) by (unfold nzb; rewrite <- Hf; reflexivity).
+        rewrite Evw, Enz, I1. cbn [c_sum c_sumsq c_nz c_fin].
+        destruct (negb (Reqb (i_val (f o)) 0)) eqn:En.
+        + cbn [length]. rewrite !Rsum_one. f_equal; lia.
+        + apply negb_false_iff, Reqb_true in En. rewrite En. cbn [length]. rewrite !Rsum_one.
+          f_equal; try (change (T NumR) with R; ring); lia. }
+    cbv zeta in HI. rewrite HI. reflexivity.
+  Qed.
+End PlainR.
+
+Section SumsR.
+  Variable strm : N -> NumR.
+  Variable ps : list (dparams NumR).
+  Variable f : integrand NumR.
+  Variable world : N.
+  Variable perm : list N.
+  Hypothesis Hf : ignores_counter f.
+
+  Notation mpi_it d cb := (mpi_iteration (pchk NumR) unit (plainres NumR) world perm sub_calls_plain (N.of_nat d)
+    (plain_li strm ps f d) (fun r => r) (fun _ => []) (fun _ pl _ => pl) base_add cb noref).
+
+  (* one PLAIN iteration of all ranks over the reals, any summation order that is a permutation of the ranks:
+     every rank adds a result whose main part (calls, non-zero calls, finite calls, sum, sum of squares) is
+     exactly the serial iteration's, together with the serial generator *)
+  Lemma c04_plain_main_R d cb calls sts (c : pchk NumR) g sts' logs go idx0 rser gser idxser evser :
+    world_ok world -> Permutation perm (iotaN 0 (N.to_nat world)) -> cb_rank_independent cb ->
+    (calls < 2 ^ 64)%N -> length sts = N.to_nat world -> agree c g tt sts ->
+    mpi_it d cb calls sts = Ok (sts', logs, go) ->
+    plain_iteration strm ps f d calls g idx0 = Ok (rser, gser, idxser, evser) ->
+    exists rpar, p_main rpar = p_main rser /\ tshape rpar = tshape rser /\ agree (base_add c rpar gser) gser tt sts'.
+  Proof.
+    intros Hw Hperm Hcb Hc Hlen Hag Hrun Hser.
+    pose proof (perm_ok_of_permutation world perm Hw Hperm) as Hp.
+    pose proof (plain_template strm ps f d tt I) as Htm.
+    destruct (points_tile (pchk NumR) unit (plainres NumR) world perm sub_calls_plain (N.of_nat d) (plain_li strm ps f d)
+                (fun r => r) (fun _ => []) (fun _ pl _ => pl) base_add cb noref triv (obs NumR) view_obs (fun _ pos => plain_at strm d pos)
+                calls sts c g tt sts' logs go Hw sub_plain_ok (plain_cost strm ps f d) Htm Hp Hcb (plain_li_positional strm ps f d)
+                Hc Hlen Hag I Hrun) as (_ & _ & Hpts).
+    specialize (Hpts _ _ _ _ _ Hser).
+    destruct (mapM_idx (local_part (pchk NumR) unit (plainres NumR) world sub_calls_plain (N.of_nat d) (plain_li strm ps f d) calls) 0 sts)
+      as [locals|code] eqn:Hm.
+    2:{ unfold mpi_iteration in Hrun. rewrite Hm in Hrun. discriminate. }
+    destruct (mpi_iteration_eq (pchk NumR) unit (plainres NumR) world perm sub_calls_plain (N.of_nat d) (plain_li strm ps f d)
+                (fun r => r) (fun _ => []) (fun _ pl _ => pl) base_add cb noref triv
+                calls sts c g tt locals Hw sub_plain_ok (plain_cost strm ps f d) Hc Hlen Hag I Htm Hp Hcb Hm)
+      as (tbuf & nbuf & pl & ex & Et & En & Hun & E).
+    cbv zeta in E. rewrite E in Hrun. clear E.
+    destruct (locals_facts (pchk NumR) unit (plainres NumR) world sub_calls_plain (N.of_nat d) (plain_li strm ps f d) triv
+                calls sts c g tt locals Hw sub_plain_ok (plain_cost strm ps f d) Hc Hlen Hag I Hm) as [Ll Lf].
+    assert (Hgser : gser = (g + N.of_nat d * calls)%N).
+    { apply plain_iteration_draws in Hser as [-> _]. lia. }
+    set (c' := base_add c pl (g + N.of_nat d * calls)%N) in *.
+    assert (Eaux : (if cb 0%N c' then @noref (pchk NumR) (plainres NumR) c' tt pl else Ok tt) = Ok tt) by (destruct (cb 0%N c'); reflexivity).
+    rewrite Eaux in Hrun. cbn [bind] in Hrun. injection Hrun as <- <- _.
+    rewrite map_map in Hpts. cbn [rl_events] in Hpts.
+    exists pl. rewrite Hgser.
+    assert (Hne : locals <> []) by (intros ->; cbn in Ll; destruct Hw; lia).
+    assert (Hx0 : exists x0, In x0 locals) by (destruct locals as [|x0 ?]; [congruence|exists x0; left; reflexivity]).
+    destruct Hx0 as [x0 Hx0]. rewrite Forall_forall in Hun. destruct (Hun x0 Hx0) as (Hu0 & Hs0 & _).
+    assert (Hloc : forall x, In x locals -> p_main (lr_of x) = main_of f (r_calls (p_main (lr_of x))) (flat_map view_obs (evs_of x)) /\
+                                   tshape (lr_of x) = tshape rser).
+    { intros x Hx. apply In_nth_error in Hx as (k & Hk). destruct (Lf k x Hk) as (st & _ & _ & _ & Hl).
+      unfold plain_li in Hl. split.
+      - rewrite (plain_main_R strm ps f Hf _ _ _ _ _ _ _ _ Hl). reflexivity.
+      - rewrite (plain_iteration_shape _ _ _ _ _ _ _ _ _ _ _ Hl), (plain_iteration_shape _ _ _ _ _ _ _ _ _ _ _ Hser). reflexivity. }
+    assert (HlenT : Forall (fun c0 => length c0 = (0 + (2 + 2 * nbins (tshape rser)))%nat)
+                           (map (fun x => pack_T (lr_of x) (@nil NumR)) locals)).
+    { apply Forall_forall. intros v Hv. apply in_map_iff in Hv as (x & <- & Hx). rewrite pack_T_length, (proj2 (Hloc x Hx)). reflexivity. }
+    assert (HlenN : Forall (fun c0 => length c0 = (2 + 2 * nbins (tshape rser))%nat)
+                           (map (fun x => pack_N (K:=NumR) (lr_of x)) locals)).
+    { apply Forall_forall. intros v Hv. apply in_map_iff in Hv as (x & <- & Hx). rewrite pack_N_length, (proj2 (Hloc x Hx)). reflexivity. }
+    assert (HpT : Permutation perm (iotaN 0 (length (map (fun x => pack_T (lr_of x) (@nil NumR)) locals)))) by (rewrite map_length, Ll; exact Hperm).
+    assert (HpN : Permutation perm (iotaN 0 (length (map (fun x => pack_N (K:=NumR) (lr_of x)) locals)))) by (rewrite map_length, Ll; exact Hperm).
+    assert (HneT : map (fun x => pack_T (lr_of x) (@nil NumR)) locals <> []) by (destruct locals; [congruence|discriminate]).
+    assert (HneN : map (fun x => pack_N (K:=NumR) (lr_of x)) locals <> []) by (destruct locals; [congruence|discriminate]).
+    destruct (allreduce_R_sum perm _ _ HpT HneT HlenT) as (vT & EvT & _ & HvT). cbv beta in Et. rewrite Et in EvT. injection EvT as <-.
+    destruct (allreduce_N_sum perm _ _ HpN HneN HlenN) as (vN & EvN & _ & HvN). cbv beta in En. rewrite En in EvN. injection EvN as <-.
+    pose proof (unpack_main _ _ _ _ _ _ _ Hu0) as Hmain. cbn [length Nat.add] in Hmain.
+    pose proof (plain_main_R strm ps f Hf _ _ _ _ _ _ _ _ Hser) as Hms. rewrite <- Hpts in Hms.
+    split; [|split].
+    - rewrite Hmain, Hms. unfold main_of.
+      change (zero NumR) with 0%R.
+      rewrite (HvT 0%nat) by lia. rewrite (HvT 1%nat) by lia. rewrite (HvN 0%nat) by lia. rewrite (HvN 1%nat) by lia.
+      rewrite !map_map. rewrite !Rsum_concat_map, !Nsum_concat_count, !map_map.
+      f_equal; [f_equal|f_equal|f_equal|f_equal]; apply map_ext_in; intros x Hx; unfold pack_N, pack_T; cbn [app nth];
+        rewrite (proj1 (Hloc x Hx)); reflexivity.
+    - rewrite Hs0. exact (proj2 (Hloc x0 Hx0)).
+    - apply Forall_forall. intros st Hst. apply in_map_iff in Hst as (x & <- & _). cbn. auto.
+  Qed.
+End SumsR.
+
+(* without distributions the added result IS the serial result: every rank's new checkpoint is the serial one *)
+Lemma c04_plain_equals_serial_R (strm : N -> NumR) (f : integrand NumR) world perm d cb calls sts (c : pchk NumR) g sts' logs go
+    idx0 rser gser idxser evser :
+  ignores_counter f -> world_ok world -> Permutation perm (iotaN 0 (N.to_nat world)) -> cb_rank_independent cb ->
+  (calls < 2 ^ 64)%N -> length sts = N.to_nat world -> agree c g tt sts ->
+  mpi_iteration (pchk NumR) unit (plainres NumR) world perm sub_calls_plain (N.of_nat d)
+    (plain_li strm [] f d) (fun r => r) (fun _ => []) (fun _ pl _ => pl) base_add cb noref calls sts = Ok (sts', logs, go) ->
+  plain_iteration strm [] f d calls g idx0 = Ok (rser, gser, idxser, evser) ->
+  agree (base_add c rser gser) gser tt sts'.
+Proof.
+  intros Hf Hw Hperm Hcb Hc Hlen Hag Hrun Hser.
+  destruct (c04_plain_main_R strm [] f world perm Hf d cb calls sts c g sts' logs go idx0 rser gser idxser evser
+              Hw Hperm Hcb Hc Hlen Hag Hrun Hser) as (rpar & Hm & Hs & Hag').
+  pose proof (plain_iteration_shape _ _ _ _ _ _ _ _ _ _ _ Hser) as Hsh. rewrite Hsh in Hs.
+  unfold tshape, ps_shape in Hs, Hsh. cbn [combine] in Hs, Hsh. apply map_eq_nil in Hs, Hsh.
+  destruct rpar as [m1 d1], rser as [m2 d2]. cbn [p_main p_dists] in *. subst. exact Hag'.
+Qed.
+
+Definition ex04_fR : integrand NumR := fun o => mk_iret (K:=NumR) (hd 0%R (o_point o)) [] false.
+Lemma ex04_fR_ok : ignores_counter ex04_fR.
+Proof. intros o. reflexivity. Qed.
